@@ -20,6 +20,7 @@ import (
 	"verif/props/c11"
 	"verif/props/c12"
 	"verif/props/c13"
+	"verif/props/c14"
 	"verif/props/c15"
 	"verif/props/c18"
 	"verif/props/c19"
@@ -40,6 +41,7 @@ var registry = map[string]func(fw.Config, *fw.Rec){
 	"C11": c11.Run,
 	"C12": c12.Run,
 	"C13": c13.Run,
+	"C14": c14.Run,
 	"C15": c15.Run,
 	"C18": c18.Run,
 	"C19": c19.Run,
